@@ -67,11 +67,22 @@ class Gen:
                 self.a.emit(name)
                 d -= 1
                 self.features.add(name)
-            elif r < 0.36:
+            elif r < 0.33:
                 name = rng.choice(ALU1)
                 d = self.ensure(d, 1)
                 self.a.emit(name)
                 self.features.add(name)
+            elif r < 0.36:
+                # the compiler's normalisation idioms: a comparison (or a word) combined with a constant, then
+                # ISZERO ISZERO / ISZERO ISZERO ISZERO; each opcode still pushes one node recording its operation
+                d = self.ensure(d, 2)
+                self.a.emit(rng.choice(["LT", "GT", "EQ", "SLT", "XOR", "ADD"]))
+                d -= 1
+                if rng.random() < 0.7:
+                    self.a.emit(rng.choice([1, 2, 3, 0xff, 1 << 255]), rng.choice(["OR", "AND", "XOR", "ADD"]))
+                self.a.emit(*(["ISZERO"] * rng.choice([2, 2, 3])))
+                self.features.add("ISZERO")
+                self.features.add("normalise-idiom")
             elif r < 0.41:
                 name = rng.choice(ALU3)
                 d = self.ensure(d, 3)
